@@ -189,6 +189,29 @@ func runC02(c *rt.Ctx) {
 	})
 	c.Exhaustive("all (n, flags) for n in [0,130000] x 128 flag subsets: DefaultFormatter, DefaultParser[string|[]byte], Valid[string|[]byte]")
 
+	// with the limit raised or disabled longer numerals must round-trip as well
+	oldLimit := roman.MaxInputLength
+	for _, limit := range []int{0, 129, 1000, 127} {
+		roman.MaxInputLength = limit
+		c.Parallel(fmt.Sprintf("limit-%d", limit), 0, func(w *rt.W) {
+			ns := []uint64{113999, 127000, 127999, 128000, 128001, 129000, 130000, 130001, 200000, 999999, 1000000, 1000888, 123456}
+			for i := 0; i < 400; i++ {
+				ns = append(ns, uint64(w.Rng.Intn(1200000)))
+			}
+			for i, n := range ns {
+				if i%w.NShards != w.Shard {
+					continue
+				}
+				for _, set := range []int{0, 127, 64, 63, w.Rng.Intn(128)} {
+					c02Case(w, n, set)
+				}
+				w.ClassN("other-input-limit", 1)
+			}
+		})
+	}
+	roman.MaxInputLength = oldLimit
+	c.Require("other-input-limit", 100)
+
 	// verbs and marshal paths under every DefaultFormat value (global: barrier per value)
 	var ns []uint64
 	for n := uint64(0); n < 4000; n++ {
